@@ -95,9 +95,9 @@ CLAIMED = {
                   'the invariant pairwise_cover holds in every reachable world, addresses are unique at quiescence (quiescent_unique) and a device yields only to a lower NAME (lower_name_wins).  Library theorems on the node model: '
                   'HandleISOAddressClaim satisfies R1..R5 (arbitration), the address search visits every address once before the null address (exhausted_run), the transmitted source is the reported one, every own-address change raises '
                   'the address-changed indication; library_node_hyps instantiates the generic theorems for networks of library and reference nodes.  Tied to the C++ by correspondence of a multi-node harness (h_net: several '
-                  'tNMEA2000 instances + reference nodes) with the network model, plus exhaustive schedule exploration of the model network for 2..4 participants.',
-             note=TB + 'Partial: termination of arbitration (converges_stmt) is stated but NOT proved - covered only by exhaustive exploration of the model network (a search, not a proof); the link from ParseMessages to handle_claim is by '
-                  'correspondence.  Open known finding commanded-address:sibling-collision (D-04; machine-checked C03_commanded_collision_refuted), so library_quiescent_unique is proved for commanded addresses that avoid sibling '
+                  'tNMEA2000 instances + reference nodes) with the network model, plus exhaustive schedule exploration of the model network for 2..4 participants.  converges: every schedule of deliveries terminates (lexicographic measure), instantiated for library + reference nodes (library_converges, library_ends_unique): every schedule reaches a quiescent world with unique addresses.',
+             note=TB + 'Partial: the instantiation is claim-level; claim_frame_dispatch proves that a claim frame in the driver queue of an open node with a free slot reaches handle_claim, the remaining link (nothing else in ParseMessages writes the '
+                  'device address; a claim frame needs a free reassembly slot) is by correspondence.  Open known finding commanded-address:sibling-collision (D-04; machine-checked C03_commanded_collision_refuted), so library_quiescent_unique is proved for commanded addresses that avoid sibling '
                   'devices.  One defect repaired in /repo (7691b01: SetMode assigned addresses above 251).  Hypothesis: distinct NAMEs.',
              design='6 C03', technique='Coq invariant proof (generic network + instantiation with the node model) + extracted-model/implementation correspondence on a multi-node harness'),
  'C04': dict(text='Theorems about one step of the node from an ARBITRARY state, for every group-function reaction satisfying a send-side contract: a listen-only node never calls the driver; a node that is not open calls it '
